@@ -74,60 +74,68 @@ def Stmt.text : Stmt → String
   | .selAll => "SELECT name, uri FROM pyro_names"
   | .commit => "COMMIT"
 
+/-- a bound parameter value -/
+inductive Arg where
+  | int (n : Nat)
+  | str (s : Str)
+  deriving DecidableEq, Repr
+
 structure Statement (β : Type) where
   tag : Stmt
+  /-- the parameter tuple passed with the statement -/
+  args : List Arg
   /-- relational meaning; `none` = the engine raises (constraint violation) -/
   run : Db → Option (β × Db)
 
-def query {β : Type} (tag : Stmt) (f : Db → β) : Statement β := ⟨tag, fun db => some (f db, db)⟩
+def query {β : Type} (tag : Stmt) (args : List Arg) (f : Db → β) : Statement β := ⟨tag, args, fun db => some (f db, db)⟩
 
-def pragmaFk : Statement Unit := query .pragmaFk fun _ => ()
-def commit : Statement Unit := query .commit fun _ => ()
+def pragmaFk : Statement Unit := query .pragmaFk [] fun _ => ()
+def commit : Statement Unit := query .commit [] fun _ => ()
 def selIdUriByName (n : Str) : Statement (Option (Nat × Str)) :=
-  query .selIdUriByName fun db => (db.names.find? (·.name == n)).map fun r => (r.id, r.uri)
-def selMetaByObj (i : Nat) : Statement Tags := query .selMetaByObj fun db => db.tagsOf i
+  query .selIdUriByName [.str n] fun db => (db.names.find? (·.name == n)).map fun r => (r.id, r.uri)
+def selMetaByObj (i : Nat) : Statement Tags := query .selMetaByObj [.int i] fun db => db.tagsOf i
 def selIdByName (n : Str) : Statement (Option Nat) :=
-  query .selIdByName fun db => (db.names.find? (·.name == n)).map (·.id)
-def countNames : Statement Nat := query .countNames fun db => db.names.length
-def existsName (n : Str) : Statement Bool := query .existsName fun db => db.names.any (·.name == n)
-def selNames : Statement (List Str) := query .selNames fun db => db.names.map (·.name)
-def selAll (tag : Stmt) : Statement (List NameRow) := query tag fun db => db.names
+  query .selIdByName [.str n] fun db => (db.names.find? (·.name == n)).map (·.id)
+def countNames : Statement Nat := query .countNames [] fun db => db.names.length
+def existsName (n : Str) : Statement Bool := query .existsName [.str n] fun db => db.names.any (·.name == n)
+def selNames : Statement (List Str) := query .selNames [] fun db => db.names.map (·.name)
+def selAll (tag : Stmt) : Statement (List NameRow) := query tag [] fun db => db.names
 
 /-- `… WHERE substr(name,1,?)=?` with parameters `(len(prefix), prefix)`: the first len(prefix) characters
     of the name are exactly the prefix (binary collation: literal, case sensitive) -/
 def selPrefix (tag : Stmt) (p : Str) : Statement (List NameRow) :=
-  query tag fun db => db.names.filter fun r => r.name.take p.length == p
+  query tag [.int p.length, .str p] fun db => db.names.filter fun r => r.name.take p.length == p
 
 /-- `… WHERE id IN (SELECT object FROM pyro_metadata WHERE metadata IN (…))` -/
 def selMetaAny (ts : Tags) : Statement (List NameRow) :=
-  query .selMetaAny fun db =>
+  query .selMetaAny (ts.map .str) fun db =>
     db.names.filter fun r => db.metas.any fun m => m.object == r.id && ts.contains m.tag
 
 /-- `… WHERE id IN (SELECT object … WHERE metadata IN (…) GROUP BY object HAVING COUNT(metadata)=?)`:
     the object's group is non-empty and holds exactly `n` rows -/
 def selMetaAll (ts : Tags) (n : Nat) : Statement (List NameRow) :=
-  query .selMetaAll fun db =>
+  query .selMetaAll (ts.map .str ++ [.int n]) fun db =>
     db.names.filter fun r =>
       let c := (db.metas.filter fun m => m.object == r.id && ts.contains m.tag).length
       decide (0 < c) && c == n
 
 def delMetaByObj (i : Nat) : Statement Unit :=
-  ⟨.delMetaByObj, fun db => some ((), { db with metas := db.metas.filter (·.object != i) })⟩
+  ⟨.delMetaByObj, [.int i], fun db => some ((), { db with metas := db.metas.filter (·.object != i) })⟩
 
 /-- FOREIGN KEY(object) REFERENCES pyro_names(id): a referenced row cannot be deleted -/
 def delNameById (i : Nat) : Statement Unit :=
-  ⟨.delNameById, fun db =>
+  ⟨.delNameById, [.int i], fun db =>
     if db.metas.any (·.object == i) then none
     else some ((), { db with names := db.names.filter (·.id != i) })⟩
 
 /-- UNIQUE(name); returns `cursor.lastrowid` -/
 def insName (n u : Str) : Statement Nat :=
-  ⟨.insName, fun db =>
+  ⟨.insName, [.str n, .str u], fun db =>
     if db.names.any (·.name == n) then none
     else some (db.newId, { db with names := db.names ++ [⟨db.newId, n, u⟩] })⟩
 
 def insMeta (oid : Nat) (t : Str) : Statement Unit :=
-  ⟨.insMeta, fun db =>
+  ⟨.insMeta, [.int oid, .str t], fun db =>
     if db.names.any (·.id == oid) then some ((), { db with metas := db.metas ++ [⟨oid, t⟩] })
     else none⟩
 
@@ -157,6 +165,15 @@ def run {α : Type} : Prog α → Db → Fuel → Option (α × Db × Fuel)
       match st.run db with
       | none => none
       | some (b, db') => run (k b) db' (f.map (· - 1))
+
+/-- the statements a failure-free run executes, in order, with their parameters -/
+def trace {α : Type} : Prog α → Db → List (Stmt × List Arg)
+  | .ret _, _ => []
+  | .step st k, db =>
+    (st.tag, st.args) ::
+      match st.run db with
+      | none => []
+      | some (b, db') => trace (k b) db'
 
 structure SqlState where
   db : Db
@@ -262,18 +279,40 @@ def sqlStore : Store SqlState where
   everything wm := transaction (pEverything wm)
   removeItems l := transaction (pRemoveItems l)
 
-/-- statements (and explicit commits) of each method in source order, for the text obligations -/
-def methodStmts : List (String × List Stmt) := [
-  ("__getitem__", [.selIdUriByName, .selMetaByObj]),
-  ("__setitem__", [.pragmaFk, .selIdByName, .delMetaByObj, .delNameById, .insName, .insMeta, .commit]),
-  ("__len__", [.countNames]),
-  ("__contains__", [.existsName]),
-  ("__delitem__", [.pragmaFk, .selIdByName, .delMetaByObj, .delNameById, .commit]),
-  ("__iter__", [.selNames]),
-  ("optimized_prefix_list", [.selPrefixFull, .selMetaByObj, .selPrefix]),
-  ("optimized_metadata_search", [.selMetaAny, .selMetaAll, .selMetaByObj]),
-  ("remove_items", [.pragmaFk, .selIdByName, .delMetaByObj, .delNameById, .commit]),
-  ("everything", [.selAllFull, .selMetaByObj, .selAll])]
+/-! ### probing: one storage-method call, its statement trace and its effect on the tables
+
+  The extractor calls the real `SqlStorage` methods on a fixed table of inputs against a tracing sqlite3
+  connection and records what was executed; `C14_gen_sql` re-runs the same calls here and compares. -/
+
+inductive Call where
+  | getItem (n : Str) | setItem (n u : Str) (t : Tags) | len | contains (n : Str) | delItem (n : Str) | iter
+  | optPrefix (p : Str) (wm : Bool) | optRegex (r : Str) (wm : Bool) | optMeta (all : Bool) (ts : Tags) (wm : Bool)
+  | removeItems (l : List Str) | everything (wm : Bool)
+  deriving Repr
+
+def probeProg {α : Type} (p : Prog α) (db : Db) : List (Stmt × List Arg) × Db :=
+  (trace p db, match eval p db with
+    | some (_, db') => db'
+    | none => db)
+
+/-- trace (none = the method touches no connection at all) and resulting tables of one call -/
+def Call.probe : Call → Db → Option (List (Stmt × List Arg)) × Db
+  | .getItem n, db => ((probeProg (pGetItem n) db).1, (probeProg (pGetItem n) db).2)
+  | .setItem n u t, db => ((probeProg (pSetItem n u t) db).1, (probeProg (pSetItem n u t) db).2)
+  | .len, db => ((probeProg pLen db).1, db)
+  | .contains n, db => ((probeProg (pContains n) db).1, db)
+  | .delItem n, db => ((probeProg (pDelItem n) db).1, (probeProg (pDelItem n) db).2)
+  | .iter, db => ((probeProg pIter db).1, db)
+  | .optPrefix p wm, db => ((probeProg (pOptPrefix p wm) db).1, db)
+  | .optRegex _ _, db => (none, db)
+  | .optMeta all ts wm, db => ((probeProg (pOptMeta all ts wm) db).1, db)
+  | .removeItems l, db => ((probeProg (pRemoveItems l) db).1, (probeProg (pRemoveItems l) db).2)
+  | .everything wm, db => ((probeProg (pEverything wm) db).1, db)
+
+def allStmts : List Stmt :=
+  [.pragmaFk, .selIdUriByName, .selMetaByObj, .selIdByName, .delMetaByObj, .delNameById, .insName, .insMeta,
+   .countNames, .existsName, .selNames, .selPrefixFull, .selPrefix, .selMetaAny, .selMetaAll, .selAllFull, .selAll,
+   .commit]
 
 /-! ### the unfixed prefix query (kept only for the negative theorem `C14_like_not_literal`) -/
 
@@ -294,7 +333,7 @@ def likeMatch : Str → Str → Bool
 
 /-- `… WHERE name LIKE ?` with parameter `prefix + '%'` (the source before the fix) -/
 def selPrefixLike (tag : Stmt) (p : Str) : Statement (List NameRow) :=
-  query tag fun db => db.names.filter fun r => likeMatch (p ++ [37]) r.name
+  query tag [.str (p ++ [37])] fun db => db.names.filter fun r => likeMatch (p ++ [37]) r.name
 
 def pOptPrefixLike (p : Str) (wm : Bool) : Prog (Option (List Entry)) :=
   listRows (selPrefixLike .selPrefixFull p) (selPrefixLike .selPrefix p) wm fun l => .ret (some l)
